@@ -145,7 +145,7 @@ def impl(case):
                 if b is None:
                     out.append([0])
                 else:
-                    out.append([1, B(b["new_socks"] == 0 and b["sock"] == a["sock"]), B(b["head"] == a["head"])])
+                    out.append([1, B(b["new_socks"] == 0 and b["sock"] == a["sock"]), B(b["head"] == a["head"]), S(b["dns"] if b["new_socks"] else "")])
             else:
                 out.append([])
             return out
@@ -254,7 +254,10 @@ def oracle(case, obs):
     elif sni is not None:
         return "a TLS handshake was made for an http URL"
     # the case / default-port variant
-    if var and var[0] == 1:
+    if var and var[0] == 1 and case.get("variant_kind") == "dot":
+        if var[1]:
+            return "a URL whose host differs by a trailing dot was sent over the connection opened for the other name"
+    elif var and var[0] == 1:
         if not var[1]:
             return "a URL differing only in letter case or an explicit default port did not reuse the pooled connection"
         if not var[2]:
@@ -326,8 +329,20 @@ def variant_of(rng, url):
     return scheme2 + "://" + ui + hp + rest
 
 
+def dot_variant(url):
+    """the same URL with a trailing dot added to (or taken off) a registered name: another DNS name, another pool"""
+    import re
+    m = re.match(r"^([a-zA-Z]+://(?:[^/?#@]*@)?)([^/?#:\[\]]+)((?::\d*)?(?:[/?#].*)?)$", url, re.S)
+    if not m or re.fullmatch(r"[0-9.]+", m.group(2)):
+        return None
+    host = m.group(2)
+    return m.group(1) + (host[:-1] if host.endswith(".") else host + ".") + m.group(3)
+
+
 def one_case(rng):
     url = rng.choice(SCHEMES) + "://" + rng.choice(USERINFO) + rng.choice(HOSTS) + rng.choice(PORTS) + rng.choice(PATHS) + rng.choice(QUERIES) + rng.choice(FRAGS)
+    if rng.random() < 0.15 and dot_variant(url):
+        return {"url": url, "variant": dot_variant(url), "variant_kind": "dot", "proxy": None}
     return {"url": url, "variant": variant_of(rng, url) if rng.random() < 0.8 else None, "proxy": rng.choice([None, None, "http"])}
 
 
@@ -339,6 +354,8 @@ def cases(rng, tier):
                 for proxy in (None, "http"):
                     url = "%s://%s%s/x?y=1#z" % (s, h, p)
                     out.append({"url": url, "variant": variant_of(rng, url), "proxy": proxy})
+    for u in ("http://example.com/x", "https://example.com./", "http://Example.COM:8080/a?b", "https://a.b.example/"):
+        out.append({"url": u, "variant": dot_variant(u), "variant_kind": "dot", "proxy": None})
     for _ in range(2500 if tier == "quick" else 40000):
         out.append(one_case(rng))
     return out
